@@ -22,6 +22,7 @@ type Runtime interface {
 	Yield(site string)
 	Lock(l sync.Locker, site string)
 	Unlock(l sync.Locker)
+	TryLock(l TryLocker, site string) bool
 	RLock(l *sync.RWMutex, site string)
 	RUnlock(l *sync.RWMutex)
 	Send(ch reflect.Value, v reflect.Value, site string)
@@ -96,6 +97,20 @@ func Unlock(l sync.Locker) {
 		return
 	}
 	rt.Unlock(l)
+}
+
+// TryLocker is a lock with TryLock (sync.Mutex, sync.RWMutex, slip.Locker).
+type TryLocker interface {
+	sync.Locker
+	TryLock() bool
+}
+
+// TryLock replaces l.TryLock().
+func TryLock(l TryLocker, site string) bool {
+	if rt == nil {
+		return l.TryLock()
+	}
+	return rt.TryLock(l, site)
 }
 
 // RLock replaces l.RLock() of a sync.RWMutex (Lock/Unlock of an RWMutex go
